@@ -171,6 +171,10 @@ def st_AugAssign(E, n, st):
     out, res = [], []
     load = _as_load(n.target)
     for s1, (a, b) in E.evs([load, n.value], st, out):
+        if isinstance(a, VObj) and s1.ghost.get("$mutated") is not None:
+            # `x op= y` on an opaque object (numpy array, list ...) may update that object IN PLACE, and with it every
+            # alias of it: recorded in the ghost set of mutated objects
+            s1.ghost["$mutated"] = z3.Store(s1.ghost["$mutated"], a.t, z3.BoolVal(True))
         v = E.binop(n.op, a, b, s1, n)
         for s2 in E.assign(n.target, v, s1, out, n):
             res.append(Outcome("normal", s2))
